@@ -102,6 +102,47 @@ def make_memo_spake():
     return MemoSPAKE2
 
 
+import collections.abc
+
+
+class OSet(collections.abc.MutableSet):
+    """insertion-ordered set: stands in for the builtin `set` inside library modules whose
+    behaviour depends on iteration order over id-hashed objects (Deferreds, protocols); the
+    explorer then sees one deterministic order (insertion order) instead of an address-dependent one"""
+
+    def __init__(self, it=()):
+        self._d = {}
+        for x in it:
+            self._d[x] = None
+
+    def __contains__(self, x):
+        return x in self._d
+
+    def __iter__(self):
+        return iter(list(self._d))
+
+    def __len__(self):
+        return len(self._d)
+
+    def add(self, x):
+        self._d[x] = None
+
+    def discard(self, x):
+        self._d.pop(x, None)
+
+    def remove(self, x):
+        del self._d[x]
+
+    def clear(self):
+        self._d.clear()
+
+    def union(self, other):
+        return OSet(list(self) + list(other))
+
+    def __repr__(self):
+        return "OSet(%r)" % (list(self._d),)
+
+
 _logged = []
 
 
